@@ -58,9 +58,13 @@ def gen_files(tier):
         for opts in ([[0, 0, 0]] * n, [[0, 1, 0]] * n if chunk != 16372 else None):
             if opts is None:
                 continue
-            yield {'recs': [{'eflr': 1, 'type': 0, 'L': 13, 'lb': 'coded'},
-                            {'eflr': 0, 'type': 127, 'L': L, 'lb': 'coded', 'cuts': cuts, 'opts': opts, 'newvr': [0] * n},
-                            {'eflr': 1, 'type': 1, 'L': 28, 'lb': 'coded', 'cuts': [12], 'opts': [[0, 0, 0], [1, 0, 0]], 'newvr': [0, 1]}]}
+            for sul in (None, {'maxlen_text': '16384'}, {'maxlen_text': '16384', 'seq_text': '9999'}):
+                case = {'recs': [{'eflr': 1, 'type': 0, 'L': 13, 'lb': 'coded'},
+                                 {'eflr': 0, 'type': 127, 'L': L, 'lb': 'coded', 'cuts': cuts, 'opts': opts, 'newvr': [0] * n},
+                                 {'eflr': 1, 'type': 1, 'L': 28, 'lb': 'coded', 'cuts': [12], 'opts': [[0, 0, 0], [1, 0, 0]], 'newvr': [0, 1]}]}
+                if sul:
+                    case['sul'] = sul      # the label's fields are free (C01): the index must not depend on them
+                yield case
     # 2-3 records, reduced per-record alphabet
     variants = [(k, L, lay) for k in kinds for L in (1, 13, 28) for lay in c01.REC_LAYOUTS
                 if not (lay.startswith('split') and L < 2)]
@@ -98,6 +102,10 @@ def op_menu(recs, lay):
                     lens |= {b - off, b - off + 1}
             for ln in sorted(lens):
                 ops.append(['fetch', i, off, ln])
+        # the by-position twin of the fetch (what LogicalFile uses to read frames): a reduced offset / length alphabet
+        for off in sorted({0, 1, min(bounds[1] + 1, total)}):
+            for ln in sorted({-1, 1, total}):
+                ops.append(['fetchpos', i, off, ln])
     ops.append(['seq'])
     ops.append(['reenter'])
     ops.append(['vrs'])
@@ -174,12 +182,15 @@ def step(system, op, check):
         except Exception as err:  # noqa
             return [({'kind': 'reenter_raises', 'exc': type(err).__name__}, '%s: %s' % (type(err).__name__, err))]
         return check_index(system) if check else []
-    _, i, off, ln = op
+    how, i, off, ln = op
     system.f.reset_log()
     try:
-        fld = system.index.get_file_logical_data(i, off, ln)
+        if how == 'fetchpos':
+            fld = system.index.get_file_logical_data_at_position(system.index[i].position, off, ln)
+        else:
+            fld = system.index.get_file_logical_data(i, off, ln)
     except Exception as err:  # noqa
-        return [({'kind': 'fetch_raises', 'exc': type(err).__name__}, 'fetch(%d,%d,%d): %s: %s' % (i, off, ln, type(err).__name__, err))]
+        return [({'kind': 'fetch_raises', 'exc': type(err).__name__, 'entry': how}, '%s(%d,%d,%d): %s: %s' % (how, i, off, ln, type(err).__name__, err))]
     if not check:
         return bad
     rec = system.recs[i]
@@ -187,9 +198,9 @@ def step(system, op, check):
     got = fld.logical_data.bytes
     if got != exp:
         multi = len(rec['cuts']) > 0
-        bad.append(({'kind': 'fetch_bytes', 'multi_segment': multi, 'partial': not (off == 0 and ln < 0)},
-                    'fetch(record %d, offset %d, length %d) returned %d bytes %s, payload slice is %d bytes %s'
-                    % (i, off, ln, len(got), got.hex(), len(exp), exp.hex())))
+        bad.append(({'kind': 'fetch_bytes', 'multi_segment': multi, 'partial': not (off == 0 and ln < 0), 'entry': how},
+                    '%s(record %d, offset %d, length %d) returned %d bytes %s, payload slice is %d bytes %s'
+                    % (how, i, off, ln, len(got), got.hex()[:200], len(exp), exp.hex()[:200])))
     if fld.lr_type != rec['type'] or fld.lr_is_eflr != rec['eflr']:
         bad.append(({'kind': 'fetch_kind_type'}, 'fetch(%d): (eflr,type)=(%r,%r)' % (i, fld.lr_is_eflr, fld.lr_type)))
     spans = system.lay.record_vr_spans(i)
@@ -231,17 +242,17 @@ def explore_file(case, depth, res):
     try:
         s0 = make()
     except Exception as err:  # noqa - the files are well formed: building the index must not raise
-        res.violate({'kind': 'index_raises', 'exc': type(err).__name__}, {'recs': case['recs'], 'history': []},
+        res.violate({'kind': 'index_raises', 'exc': type(err).__name__}, {'recs': case['recs'], 'sul': case.get('sul'), 'history': []},
                     'building the index of a well-formed file raised %s: %s' % (type(err).__name__, err))
         return 0, 0, False, len(menu)
     for sig, msg in check_index(s0):
-        res.violate(sig, {'recs': case['recs'], 'history': []}, msg)
+        res.violate(sig, {'recs': case['recs'], 'sul': case.get('sul'), 'history': []}, msg)
     outcomes = []
 
     def stepper(system, op, check):
         bad = step(system, op, check)
         return bad
-    st, tr, closed = bfs.search(make, lambda s: menu, stepper, System.canon, depth, res, {'recs': case['recs']})
+    st, tr, closed = bfs.search(make, lambda s: menu, stepper, System.canon, depth, res, {'recs': case['recs'], 'sul': case.get('sul')})
     return st, tr, closed, len(menu)
 
 
@@ -268,7 +279,7 @@ def run_shard(shard, tier):
 
 
 def replay(case):
-    data, lay, recs, _ = c01.materialise({'recs': case['recs']})
+    data, lay, recs, _ = c01.materialise({'recs': case['recs'], 'sul': case.get('sul')})
 
     def make():
         return System(data, lay, recs)
